@@ -266,8 +266,11 @@ Proof. vm_compute. split; reflexivity. Qed.
 
 Example ex_cmp_contract_rejects_wrong_ne :
   cmp_ok model_cmp = true /\
-  cmp_ok (mkCmp (CCmp KEq CA CB) (CCmp KLt CA CB) (CCmp KLt CA CB) true true true) = false /\
-  cmp_ok (mkCmp (CNot (CCmp KNe CB CA)) (CNot (CCmp KEq CA CB)) (CCmp KGt CB CA) true true true) = true.
+  cmp_ok (mkCmp (CCmp KEq CA CB) (CCmp KLt CA CB) (CCmp KLt CA CB) true true true true) = false /\
+  cmp_ok (mkCmp (CNot (CCmp KNe CB CA)) (CNot (CCmp KEq CA CB)) (CCmp KGt CB CA) true true true true) = true /\
+  (* comparing through void* (no derived-to-base adjustment) and falling back to operator bool are rejected *)
+  cmp_ok (mkCmp (CCmp KEq CAvoid CBvoid) (CCmp KNe CA CB) (CCmp KLt CA CB) true true true true) = false /\
+  cmp_ok (mkCmp (CCmp KEq CA CB) (CCmp KNe CA CB) (CCmp KLt CA CB) true true true false) = false.
 Proof. vm_compute. repeat split; reflexivity. Qed.
 
 (* a converting constructor from an rvalue that neither increments nor nulls its source (the selection
@@ -283,3 +286,10 @@ Example ex_conv_move_keeps_source_reference :
         (run 3 [Create; RawCtor 2 (Some 0%nat); RefDec 0%nat]) (ConvMoveCtor 0 2)) (Dtor 2)) (Dtor 0))) = true /\
   sel_ok (fun f => match f with FConvR => (None, VUnknown) | _ => model_sel f end) = false.
 Proof. vm_compute. repeat split; reflexivity. Qed.
+
+(* before the repair a comparison of handles of different static types compared operator bool():
+   two handles on DIFFERENT objects compared equal (finding fixed by build/handoff/C08/fix-1.patch) *)
+Example mixed_comparison_old_refuted :
+  let s := run 5 [Create; Create; RawCtor 0 (Some 0%nat); RawCtor 3 (Some 1%nat)] in
+  handle_eq_mixed_old s 0 3 = true /\ handle_ptr s 0 <> handle_ptr s 3 /\ handle_eq s 0 3 = false.
+Proof. vm_compute. repeat split; congruence. Qed.
